@@ -148,6 +148,12 @@ impl LogWriter {
     pub fn sync(&mut self) -> io::Result<()> {
         self.0.get_ref().sync_all()
     }
+
+    /// Close the log without writing the data that is still buffered. There is buffered data
+    /// only after an append has failed.
+    pub fn discard(self) {
+        drop(self.0.into_inner_unflushed());
+    }
 }
 
 /// A random-access file reader that deserializes data using `bincode`.
